@@ -259,6 +259,21 @@ var c11Locales = []c11Locale{
 		}
 		return 2
 	}},
+	{"fr", 2, "nplurals=2; plural=(n > 1);", func(n int) int {
+		if n > 1 {
+			return 1
+		}
+		return 0
+	}},
+	{"ru", 3, "nplurals=3; plural=(n%10==1 && n%100!=11 ? 0 : n%10>=2 && n%10<=4 && (n%100<10 || n%100>=20) ? 1 : 2);", func(n int) int {
+		switch {
+		case n%10 == 1 && n%100 != 11:
+			return 0
+		case n%10 >= 2 && n%10 <= 4 && (n%100 < 10 || n%100 >= 20):
+			return 1
+		}
+		return 2
+	}},
 }
 
 // transform of a braced string for a catalogue kind
@@ -298,16 +313,16 @@ func init() {
 		ID:    "C11",
 		Level: "exploration",
 		Rule: "cases = seeded bundles with 2-4 messages (text with html tags, 2-6 placeholders incl. pairs of expressions that differ only by parentheses or by a string escape, calls, plurals " +
-			"{case 1}/{default}; at top level, in a loop, in a callee) x catalogue kind (identity, placeholder order reversed with marked text, partial) x locale (ja 1 form, en 2, cs 3; Plural-Forms " +
+			"{case 1}/{default}; at top level, in a loop, in a callee) x catalogue kind (identity, placeholder order reversed with marked text, partial, mixed = some forms / messages left as the source text and the others reversed) x locale (ja 1 form, en and fr 2, cs and ru 3; Plural-Forms " +
 			"header present or left to the library) x 3 data maps with distinct values. Pipeline: the real xgettext-soy binary (built from the tree under test) extracts a POT, the harness writes the " +
 			"translated .po with its own writer, pomsg.Dir loads it, Renderer.WithMessages renders, soyjs.Write(Options.Messages) + JS engine renders. Oracles: extracted msgid = reference placeholder " +
 			"string; identity catalogue = render without catalogue (en); every catalogue = reference renderer with the same translation (each placeholder's live value where the translation puts it, " +
 			"plural form by the locale's rule written down in the harness); Go = JS. distinct = distinct (sources, catalogue, locale, data); non-trivial = message has >= 2 placeholders or a plural",
 		N: func(tier string) int {
 			if tier == "thorough" {
-				return 6000
+				return 40000
 			}
-			return 300
+			return 2000
 		},
 		Setup: func(tier string, seed uint64, config string) string {
 			if os.Getenv("VERIF_XGETTEXT") == "" {
@@ -394,9 +409,10 @@ func init() {
 			}
 			tofu := soyhtml.NewTofu(tofuReg)
 			e, _ := engine()
-			kind := []string{"identity", "reversed", "partial"}[i%3]
-			loc := c11Locales[(i/3)%3]
-			withHeader := (i/9)%2 == 0
+			kind := []string{"identity", "reversed", "partial", "mixed"}[i%4]
+			loc := c11Locales[(i/4)%len(c11Locales)]
+			withHeader := (i/20)%2 == 0
+			mixPhase := r.Intn(2)
 			omitted := map[int]bool{}
 			if kind == "partial" {
 				// a catalogue entry is addressed by id: leaving a message out means leaving out every message with its id
@@ -448,10 +464,15 @@ func init() {
 							src = sing
 						}
 						form := f
-						if tkind == "identity" {
+						fk := tkind
+						if kind == "mixed" {
+							// some forms left as the source text, the others reordered and marked
+							fk = []string{"identity", "reversed"}[(k+f+mixPhase)%2]
+						}
+						if fk == "identity" {
 							form = -1
 						}
-						t := c11Transform(tkind, src, form)
+						t := c11Transform(fk, src, form)
 						fmt.Fprintf(&pof, "msgstr[%d] %s\n", f, poQuote(t))
 						tr.Plural = append(tr.Plural, ref.ParseParts(t))
 					}
@@ -460,7 +481,11 @@ func init() {
 					if m.Meaning != "" {
 						pof.WriteString("msgctxt " + poQuote(m.Meaning) + "\n")
 					}
-					t := c11Transform(tkind, infos[k].PhString, -1)
+					fk := tkind
+					if kind == "mixed" {
+						fk = []string{"identity", "reversed"}[(k+mixPhase)%2]
+					}
+					t := c11Transform(fk, infos[k].PhString, -1)
 					pof.WriteString("msgid " + poQuote(pm.Id) + "\nmsgstr " + poQuote(t) + "\n")
 					tr.Parts = ref.ParseParts(t)
 				}
@@ -487,7 +512,8 @@ func init() {
 				return fw.Result{Verdict: fw.Violated, Key: "js-does-not-load", Case: map[string]interface{}{"files": files, "js": js[file]}, Msg: fw.Trim(err.Error(), 300)}
 			}
 			// the locale's plural rule for the generated JavaScript
-			rules := map[string]string{"ja": "return 0;", "en": "return n != 1 ? 1 : 0;", "cs": "return n == 1 ? 0 : (n >= 2 && n <= 4) ? 1 : 2;"}
+			rules := map[string]string{"ja": "return 0;", "en": "return n != 1 ? 1 : 0;", "cs": "return n == 1 ? 0 : (n >= 2 && n <= 4) ? 1 : 2;", "fr": "return n > 1 ? 1 : 0;",
+				"ru": "return (n%10==1 && n%100!=11 ? 0 : n%10>=2 && n%10<=4 && (n%100<10 || n%100>=20) ? 1 : 2);"}
 			if err := e.Load("soy.$$pluralIndex = function(n) { " + rules[loc.name] + " };"); err != nil {
 				return fw.Result{Verdict: fw.Inconclusive, Key: "engine-failure", Msg: err.Error()}
 			}
@@ -500,7 +526,7 @@ func init() {
 					nontrivial = true
 				}
 			}
-			for dk, n := range []int64{1, 3, []int64{0, 2, 5, 7, 22}[r.Intn(5)]} {
+			for dk, n := range []int64{1, 3, []int64{0, 2, 5, 7, 22, 21, 11, 101}[r.Intn(8)]} {
 				ls := ref.Value{K: ref.KList, ID: 77}
 				for q := int64(0); q < []int64{1, 2, 3}[dk]; q++ {
 					ls.L = append(ls.L, ref.Int(100+q))
@@ -582,6 +608,9 @@ func init() {
 			if obs["reordered_placeholders_rendered"] == 0 || obs["identity_compared"] == 0 || obs["fallbacks_to_source"] == 0 || obs["go_js_compared"] == 0 {
 				why = append(why, "one of the catalogue kinds / oracles never ran")
 			}
+			if !cells["catalogue:mixed"] {
+				why = append(why, "no mixed catalogue")
+			}
 			for _, l := range c11Locales {
 				if !cells["locale:"+l.name] {
 					why = append(why, "locale never used: "+l.name)
@@ -591,7 +620,7 @@ func init() {
 		},
 		Assumptions: []string{
 			"robfig/gettext/po is trusted to read the extractor's POT; the translated .po is written by the harness's own writer",
-			"plural rules of ja/en/cs are written down in the harness, independent of the library's selector",
+			"plural rules of ja/en/fr/cs/ru are written down in the harness, independent of the library's selector",
 			"PO can express only {case 1}/{default} plurals (the extractor refuses others); identity is asserted for en only",
 		},
 	})
